@@ -354,7 +354,12 @@ class World:
         rec['finished'] = True
         self.ev('thread_end', tid, rec['id'], rec['ident'])
 
+    def release_helpers(self):
+        for ev in self.__dict__.get('_helper_events', []):
+            ev.set()
+
     def release_all(self):
+        self.release_helpers()
         for rec in self.trecs:
             self.finish_thread(rec)
 
@@ -412,6 +417,16 @@ class World:
 
                 def testSetUp(cls):
                     W.streams('layer_testSetUp:' + name, None)
+                    # optional: the layer itself starts a long-lived helper thread before the k-th test it brackets
+                    # (a thread that exists before the test starts must never be blamed on that test)
+                    cnt = W.__dict__.setdefault('_tsu_count', {})
+                    cnt[name] = cnt.get(name, 0) + 1
+                    if ly.get('helper_before') is not None and cnt[name] - 1 == ly['helper_before']:
+                        import threading
+                        ev = threading.Event()
+                        W.__dict__.setdefault('_helper_events', []).append(ev)
+                        th = threading.Thread(target=ev.wait, name='layer-helper-' + name, daemon=True)
+                        th.start()
 
                 def testTearDown(cls):
                     W.streams('layer_testTearDown:' + name, None)
